@@ -324,12 +324,31 @@ pub fn run_mode(opts: &Options, prop: &str) -> Report {
         .into();
     let mut rng = Rng::new(opts.seed ^ fnv("C04") ^ fnv(prop));
     let mut seeds: Vec<(u64, usize)> = Vec::new();
+    // C04: the histories (by seed) that issue set_scripts commands; they are ADDITIONAL histories
+    // (a command that moves the filter sync back makes the client index everything again, which
+    // would hide what the plain fork histories are there to show)
+    let mut cmd_seeds: BTreeSet<u64> = BTreeSet::new();
+    let marked = |text: &str| -> Vec<u64> {
+        text.lines()
+            .filter_map(|l| {
+                let t: Vec<&str> = l.split_whitespace().collect();
+                if t.first() == Some(&"history-seed") && t.get(4) == Some(&"cmds") { t[1].parse().ok() } else { None }
+            })
+            .collect()
+    };
     if let Some(p) = &opts.replay {
-        seeds = parse_seeds(&std::fs::read_to_string(p).expect("replay"));
+        let text = std::fs::read_to_string(p).expect("replay");
+        cmd_seeds.extend(marked(&text));
+        if text.contains("set_scripts commands") {
+            cmd_seeds.extend(parse_seeds(&text).iter().map(|s| s.0));
+        }
+        seeds = parse_seeds(&text);
     } else {
         if let Ok(rd) = std::fs::read_dir(if prop == "C04" { "/verif/corpus/C04".to_string() } else { format!("/verif/corpus/{}-fullstack", prop) }) {
             for e in rd.flatten() {
-                seeds.extend(parse_seeds(&std::fs::read_to_string(e.path()).unwrap_or_default()));
+                let text = std::fs::read_to_string(e.path()).unwrap_or_default();
+                cmd_seeds.extend(marked(&text));
+                seeds.extend(parse_seeds(&text));
             }
         }
         let n = match (prop, opts.thorough()) {
@@ -345,6 +364,13 @@ pub fn run_mode(opts: &Options, prop: &str) -> Report {
         for _ in 0..n {
             seeds.push((rng.next(), rng.range(6, 24) as usize));
         }
+        if prop == "C04" {
+            for _ in 0..n / 2 {
+                let s = (rng.next(), rng.range(6, 24) as usize);
+                cmd_seeds.insert(s.0);
+                seeds.push(s);
+            }
+        }
     }
     let debug = std::env::var("VERIF_DEBUG_SYNC").is_ok();
     let mut meta_lines: Vec<String> = vec!["reset".to_string(), "init 1 0".to_string()];
@@ -356,7 +382,7 @@ pub fn run_mode(opts: &Options, prop: &str) -> Report {
         super::seed_client_randomness(*seed);
         let sc = scenario(*seed, *len, prop == "C03");
         let branches = &sc.branches;
-        let replay = |extra: String| vec![format!("history-seed {} len {}", seed, len), format!("# {}{}; steps {:?}", if prop == "C09" { "fork-history with set_scripts commands; " } else { "" }, sc.desc, sc.steps), extra];
+        let replay = |extra: String| vec![format!("history-seed {} len {}", seed, len), format!("# {}{}; steps {:?}", if prop == "C09" { "fork-history with set_scripts commands; " } else if cmd_seeds.contains(seed) { "with set_scripts commands; " } else { "" }, sc.desc, sc.steps), extra];
         if hi % 17 == 0 {
             rep.sample(&format!("history-seed {} len {}: {}; steps {:?}", seed, len, sc.desc, sc.steps));
         }
@@ -412,6 +438,8 @@ pub fn run_mode(opts: &Options, prop: &str) -> Report {
         // not followed the reorganisation yet) moved the filtered height: the filters of ITS blocks
         // above the fork point were taken for the blocks of the stored tip's chain
         let mut foreign_filters: Option<String> = None;
+        // the heights of the stored tip's branch that were passed on such filters
+        let mut foreign_ranges: Vec<(u64, u64)> = Vec::new();
         // C08: after a crash INSIDE the fork handling (records above the fork point deleted, the
         // rollback batch not written) half of the runs continue on the OLD branch, which has
         // grown beyond the new one meanwhile (the reorganisation is reorganised away)
@@ -420,6 +448,10 @@ pub fn run_mode(opts: &Options, prop: &str) -> Report {
         // as a TYPE script, which nothing on these chains touches - is added from a far block with
         // `partial` and removed again with `delete`) at arbitrary moments of the fork histories
         let mut cmd_rng = Rng::new(*seed ^ 0x5e75_c0de);
+        // after a command right in front of a switch the peers are slow with their filters: the
+        // answers of the filter protocol are dropped until the proof has moved the stored tip
+        // (the client asks again), so that the reorganisation finds the filter sync moved back
+        let mut hold_filters = false;
         let mut extra_registered = false;
         let mut seen_switch = false;
         // the writes of the steps are counted (the first start and set_scripts have their own
@@ -447,7 +479,7 @@ pub fn run_mode(opts: &Options, prop: &str) -> Report {
                     // a command that moves the filter sync back (another script registered from
                     // a low block) right in front of the reorganisation: the blocks of the kept
                     // scripts stay indexed above the min filtered number and must still be rolled back
-                    if (prop == "C09" || (prop == "C04" && seed % 3 == 0)) && !extra_registered && cmd_rng.chance(1, 2) {
+                    if (prop == "C09" || (prop == "C04" && cmd_seeds.contains(seed))) && !extra_registered && cmd_rng.chance(1, 2) {
                         let low = cmd_rng.range(0, 12);
                         extra_registered = true;
                         let statuses = vec![ScriptStatus { script: script_of(1).into(), script_type: ScriptType::Type, block_number: low.into() }];
@@ -457,6 +489,7 @@ pub fn run_mode(opts: &Options, prop: &str) -> Report {
                             break 'steps;
                         }
                         rep.count_op("set-partial-low-before-switch");
+                        hold_filters = true;
                         lines.push(format!("set 1 | 11 {}", low));
                         impls.push(String::new());
                         lines.push("dump".into());
@@ -532,6 +565,15 @@ pub fn run_mode(opts: &Options, prop: &str) -> Report {
                             };
                             for (rp, bytes) in replies {
                                 let (kind, start) = classify(rp, &bytes);
+                                if hold_filters && rp == SupportProtocols::Filter.protocol_id() {
+                                    let tip = node.i().storage.get_tip_header().calc_header_hash();
+                                    if branches[serving].chain.number_of_hash(&tip).is_some() && (serving == 0 || branches[serving - 1].chain.number_of_hash(&tip).is_none()) {
+                                        hold_filters = false;
+                                    } else {
+                                        rep.count_class("filter-answer-withheld-until-the-proof");
+                                        continue;
+                                    }
+                                }
                                 let before = observe_all(&node, branches, serving);
                                 let tip_before = node.i().storage.get_tip_header().calc_header_hash();
                                 let volatile_empty = node.i().peers.matched_blocks().read().unwrap().is_empty();
@@ -551,7 +593,7 @@ pub fn run_mode(opts: &Options, prop: &str) -> Report {
                                     }
                                 }
                                 let after = observe_all(&node, branches, serving);
-                                if kind == "BlockFilters" && after.min_f > before.min_f && foreign_filters.is_none() {
+                                if kind == "BlockFilters" && after.min_f > before.min_f {
                                     let tip_hash = node.i().storage.get_tip_header().calc_header_hash();
                                     let pb = peer_branch.get(p.value()).copied().unwrap_or(serving);
                                     if branches[pb].chain.number_of_hash(&tip_hash).is_none() {
@@ -562,6 +604,7 @@ pub fn run_mode(opts: &Options, prop: &str) -> Report {
                                                 .find(|m| branches[pb].chain.header(*m).hash() == branches[tb].chain.header(*m).hash())
                                                 .unwrap_or(0);
                                             if after.min_f > fp {
+                                                foreign_ranges.push((fp.max(before.min_f) + 1, after.min_f));
                                                 foreign_filters = Some(format!(
                                                     "peer {} (still on branch {}, which parts from the stored tip's branch {} after block {}) moved the filtered height from {} to {}",
                                                     p, pb, tb, fp, before.min_f, after.min_f
@@ -617,7 +660,7 @@ pub fn run_mode(opts: &Options, prop: &str) -> Report {
                                 // also before it (a low number moves the filter sync back below
                                 // blocks that stay indexed: a fork in that window must still roll
                                 // them back)
-                                let with_cmds = prop == "C09" || (prop == "C04" && seed % 3 == 0);
+                                let with_cmds = prop == "C09" || (prop == "C04" && cmd_seeds.contains(seed));
                                 if with_cmds && cmd_rng.chance(if seen_switch || prop == "C04" { 1 } else { 0 }, 4) {
                                     let low = cmd_rng.range(0, 12);
                                     let (cmd, line, number) = if extra_registered {
@@ -872,41 +915,52 @@ pub fn run_mode(opts: &Options, prop: &str) -> Report {
                 replay(format!("# scripts registered from {}; missing: {:?}", reg_start, show(&pre))),
             );
         }
-        if !other.is_empty() {
-            match &foreign_filters {
-                Some(how) => rep.violate(
+        let in_foreign = |b: u64| foreign_ranges.iter().any(|(lo, hi)| *lo <= b && b <= *hi);
+        let how = foreign_filters.clone().unwrap_or_default();
+        {
+            // only activity of heights that were passed on a lagging peer's filters belongs to the
+            // recorded finding; anything else missing is reported as what it is
+            let (known, unknown): (Vec<&Fact>, Vec<&Fact>) = other.into_iter().partition(|f| in_foreign(f.1));
+            if !known.is_empty() {
+                rep.violate(
                     &format!("{}|history-missing|filters-of-a-lagging-peer-accepted", prop),
                     "while the peers follow a reorganisation one after the other, the block filters of a peer that is still on the abandoned branch are accepted for heights above the fork point (its filter hashes have the quorum of the peers that lag) although the stored tip is on the new branch: the filtered height passes blocks of the new branch that were never examined, their activity is lost",
-                    replay(format!("# {}; scripts registered from {}; missing: {:?}", how, reg_start, show(&other))),
-                ),
-                None => rep.violate(&format!("{}|history-missing", prop), "after the chain moved and the sync converged the history misses activity of the new chain", replay(format!("# scripts registered from {}; missing: {:?}", reg_start, show(&other)))),
+                    replay(format!("# {}; scripts registered from {}; missing: {:?}", how, reg_start, show(&known))),
+                );
+            }
+            if !unknown.is_empty() {
+                rep.violate(&format!("{}|history-missing", prop), "after the chain moved and the sync converged the history misses activity of the new chain", replay(format!("# scripts registered from {}; missing: {:?}", reg_start, show(&unknown))));
             }
         }
         if !extra.is_empty() {
             rep.violate(&format!("{}|history-extra", prop), "after the reorganisation and convergence the history holds entries that are not on the new chain", replay(format!("# extra: {:?}", extra)));
         }
         let tcells: BTreeSet<Cell> = fin.cells().into_iter().filter(|c| c.1 > reg_start).collect();
-        let missing: Vec<String> = tcells.difference(&cells).take(4).map(|c| format!("script {} block {} tx {} index {}", c.0, c.1, short(&c.2), c.3)).collect();
-        let extra: Vec<String> = cells.difference(&tcells).take(4).map(|c| format!("script {} block {} tx {} index {}", c.0, c.1, short(&c.2), c.3)).collect();
-        if !missing.is_empty() {
-            match &foreign_filters {
-                Some(how) => rep.violate(
-                    &format!("{}|cell-missing|filters-of-a-lagging-peer-accepted", prop),
-                    "the same cause seen in get_cells: a cell created in a block of the new branch that the filtered height passed on the filters of a lagging peer is not reported",
-                    replay(format!("# {}; missing: {:?}", how, missing)),
-                ),
-                None => rep.violate(&format!("{}|cell-missing", prop), "after the reorganisation a cell that is live on the new chain is not reported (e.g. spent only on the abandoned branch)", replay(format!("# missing: {:?}", missing))),
-            }
+        let showc = |v: &Vec<&Cell>| -> Vec<String> { v.iter().take(4).map(|c| format!("script {} block {} tx {} index {}", c.0, c.1, short(&c.2), c.3)).collect() };
+        // a missing live cell belongs to the finding when the block that creates it was passed; a
+        // cell that is still reported although it is spent, when the block that spends it was
+        let (mk, mu): (Vec<&Cell>, Vec<&Cell>) = tcells.difference(&cells).partition(|c| in_foreign(c.1));
+        let spent_in = |c: &Cell| -> Option<u64> { fin.txlog.iter().find(|t| t.2.iter().any(|l| l.tx_hash == c.2 && l.index == c.3)).map(|t| t.0) };
+        let (ek, eu): (Vec<&Cell>, Vec<&Cell>) = cells.difference(&tcells).partition(|c| spent_in(c).map(|b| in_foreign(b)).unwrap_or(false));
+        if !mk.is_empty() {
+            rep.violate(
+                &format!("{}|cell-missing|filters-of-a-lagging-peer-accepted", prop),
+                "the same cause seen in get_cells: a cell created in a block of the new branch that the filtered height passed on the filters of a lagging peer is not reported",
+                replay(format!("# {}; missing: {:?}", how, showc(&mk))),
+            );
         }
-        if !extra.is_empty() {
-            match &foreign_filters {
-                Some(how) => rep.violate(
-                    &format!("{}|cell-extra|filters-of-a-lagging-peer-accepted", prop),
-                    "the same cause seen in get_cells: a cell spent in a block of the new branch that was never examined is still reported live",
-                    replay(format!("# {}; extra: {:?}", how, extra)),
-                ),
-                None => rep.violate(&format!("{}|cell-extra", prop), "after the reorganisation a cell is reported live that is not live on the new chain", replay(format!("# extra: {:?}", extra))),
-            }
+        if !mu.is_empty() {
+            rep.violate(&format!("{}|cell-missing", prop), "after the reorganisation a cell that is live on the new chain is not reported (e.g. spent only on the abandoned branch)", replay(format!("# missing: {:?}", showc(&mu))));
+        }
+        if !ek.is_empty() {
+            rep.violate(
+                &format!("{}|cell-extra|filters-of-a-lagging-peer-accepted", prop),
+                "the same cause seen in get_cells: a cell spent in a block of the new branch that was never examined is still reported live",
+                replay(format!("# {}; extra: {:?}", how, showc(&ek))),
+            );
+        }
+        if !eu.is_empty() {
+            rep.violate(&format!("{}|cell-extra", prop), "after the reorganisation a cell is reported live that is not live on the new chain", replay(format!("# extra: {:?}", showc(&eu))));
         }
         } // crash points
     }
